@@ -198,6 +198,32 @@ def fs_case(rnd, n_cmds):
     return {"steps": steps}, jsonable(groups)
 
 
+def fs_burst_case(k):
+    """many quick commands at once (eight `rollout set` / pause / resume on two services per group, several groups): whichever
+    snapshot is taken last must reach the state file - the next one's temporary file is not anybody else's to clean up"""
+    hosts = {b"web": b"a.example.com", b"api": b"b.example.com"}
+    groups = [[dep(b"web", hosts[b"web"], [b"ta:80"])], [dep(b"api", hosts[b"api"], [b"tb:80"])],
+              [{"op": "rollout_deploy", "name": b"web", "targets": [{"name": b"tc:8080", "healthy": True}]}],
+              [{"op": "rollout_deploy", "name": b"api", "targets": [{"name": b"td:80", "healthy": True}]}]]
+    for g in range(12 + k % 3):
+        grp = []
+        for j in range(8):
+            n = [b"web", b"api"][(j + g) % 2]
+            if (g + k) % 2 == 0 or j < 6:
+                grp.append({"op": "rollout_set", "name": n, "pct": (10 * j + g) % 101, "allow": [b"alice"] if j % 2 else []})
+            else:
+                grp.append({"op": "rollout_stop", "name": n})
+        groups.append(grp)
+    steps, i = [], 0
+    for g in groups:
+        sts = []
+        for c in g:
+            sts.append(cmd_step(c, "c%d" % i))
+            i += 1
+        steps.append(sts[0] if len(sts) == 1 else {"par": sts})
+    return {"steps": steps, "no_hooks": True}, jsonable(groups)
+
+
 def fs_term(out):
     """Coq term list (fsk * fsname) of the inotify events of one case (one term per flag set)."""
     items, shown = [], []
@@ -229,6 +255,17 @@ def fs_check(work, terms, shard=10):
                 raise RuntimeError("fs verdict count mismatch")
             res[s:s + len(vs)] = vs
     return res
+
+
+def run_burst(work, tier):
+    """harness/c12fs_test.go TestVerifC12Burst: rounds of eight commands at once, hooks inert; rows of stale rounds + a summary"""
+    outp = work.path("burst.jsonl")
+    rc, gout = go_test(work, FILES + ["c12fs_test.go"], "^TestVerifC12Burst$",
+                       {"VERIF_OUT": outp, "VERIF_ROUNDS": "120" if tier == "quick" else "1500", "GODEBUG": "", "GOGC": "100"},
+                       synctest=True, timeout=900)
+    if rc != 0 or not os.path.exists(outp):
+        return False, gout, []
+    return True, gout, read_jsonl(outp)
 
 
 def run_fs(work, cases):
@@ -447,11 +484,17 @@ def run(tier, seed):
             fs_cases.append(c)
             fs_meta.append(g)
 
+        for k in range(4 if quick else 20):
+            c, g = fs_burst_case(k)
+            fs_cases.append(c)
+            fs_meta.append(g)
+
         # (5) faults of the file system (the snapshot's write cut short) and leftovers of an earlier crash, restarts
         fault_cases = [fault_case(rnd, rnd.randint(8, 16)) for _ in range(10 if quick else 80)]
 
         harness_ok, gout, outs = m5.run_scenarios(work, scen, FILES)
         fs_ok, fs_gout, fs_outs = run_fs(work, fs_cases)
+        bu_ok, bu_gout, bu_rows = run_burst(work, tier)
         ft_ok, ft_gout, ft_outs = run_fault(work, fault_cases)
         ft_bad = fault_check(work, ft_outs) if (ft_ok and ok) else []
         if not ft_ok:
@@ -498,12 +541,15 @@ def run(tier, seed):
             kinds[m["kind"]] = kinds.get(m["kind"], 0) + 1
         mon = [(i, v["monitor"]) for i, v in enumerate(verdicts) if v["monitor"]]
         fs_mon = [(i, v[0]) for i, v in enumerate(fs_verdicts) if v[0]]
-        fs_stale = [i for i, o in enumerate(fs_outs) if fs_ok and (not isinstance(o["final_state_file"], list) or
-                    not isinstance(o["final_cfg"], list) or canon_cfg(o["final_state_file"]) != canon_cfg(o["final_cfg"]))]
+        def stale(f, c):
+            return not isinstance(f, list) or not isinstance(c, list) or canon_cfg(f) != canon_cfg(c)
+        fs_stale = [i for i, o in enumerate(fs_outs) if fs_ok and (stale(o["final_state_file"], o["final_cfg"]) or
+                    any(stale(x["state_file"], x["cfg"]) for x in o.get("after_par", [])))]
         fs_repaired = any(o["hooks"].get("snap-rename", 0) for o in fs_outs)
         fs_differ = [i for i, (o, v) in enumerate(zip(fs_outs, fs_verdicts))
-                     if o["overflow"] or (o["hooks"].get("snap-collect", 0) > 0 and v[1] + v[2] == 0 and not v[0]) or
-                     (fs_repaired and (v[1] != o["hooks"].get("snap-rename", 0) or v[2] != o["hooks"].get("snap-create", 0)))]
+                     if o["overflow"] or (not o.get("no_hooks") and (
+                         (o["hooks"].get("snap-collect", 0) > 0 and v[1] + v[2] == 0 and not v[0]) or
+                         (fs_repaired and (v[1] != o["hooks"].get("snap-rename", 0) or v[2] != o["hooks"].get("snap-create", 0)))))]
         fs_cmds, fs_kinds, fs_par = 0, {}, 0
         for o, c in zip(fs_outs, fs_cases):
             fs_par += sum(1 for st in c["steps"] if "par" in st)
@@ -536,6 +582,7 @@ def run(tier, seed):
                         "temporary files created are compared with the snap-rename / snap-create hook events",
                 "cases": len(fs_cases), "commands": fs_cmds, "steps_with_two_concurrent_commands": fs_par,
                 "directory_events_by_kind": fs_kinds, "monitor_failures": len(fs_mon), "stale_at_end": len(fs_stale),
+                "bursts_of_eight_commands": ([x for x in bu_rows if x.get("summary")] or [{}])[0],
                 "disagreements_with_hooks": len(fs_differ),
                 "sample": fs_shown[0][:40] if fs_shown else []},
         })
@@ -610,6 +657,20 @@ def run(tier, seed):
                 p["final_state_file"] = summary(o["final_state_file"])
                 p["configuration_in_force"] = summary(o["final_cfg"])
             res.violation("fs-monitor-%d" % i, p)
+        elif bu_ok and any(not r.get("summary") for r in bu_rows):
+            r = [x for x in bu_rows if not x.get("summary")][0]
+            sm = [x for x in bu_rows if x.get("summary")][0]
+            res.violation("burst-%d" % r["round"], {
+                "property": "C12", "seed": seed, "tier": tier,
+                "what": "stale: eight clients issued four `rollout set` commands each at the same time, 48 services (real scheduler, hooks inert); all of "
+                        "them have returned and the state file is not the configuration in force",
+                "round": r["round"], "state_file": r["state_file"][:3000], "configuration_in_force": r["configuration_in_force"][:3000],
+                "stale_rounds": sm["stale_rounds"], "rounds": sm["rounds"],
+                "replay": "VERIF_ROUNDS=%d go test -tags verif -overlay ... -run ^TestVerifC12Burst$ (harness/c12fs_test.go)" % sm["rounds"]})
+        elif not bu_ok:
+            res.violation("broken", {"property": "C12", "seed": seed, "tier": tier,
+                                     "what": "burst harness (harness/c12fs_test.go TestVerifC12Burst) does not build/run against the tree",
+                                     "harness_output": bu_gout[-3000:]}, no_input=True)
         elif not fs_ok or fs_differ:
             p = {"property": "C12", "seed": seed, "tier": tier,
                  "what": "file-system harness (harness/c12fs_test.go) does not build/run against the tree" if not fs_ok else
